@@ -25,7 +25,7 @@ RULE = ('table of every public data operation of Cache, FanoutCache, DjangoCache
 DISTINCT = ('cases',)
 REQUIRED = ('cache_timeouts_raised', 'cache_retry_waited', 'bulk_partial_timeouts', 'fanout_reported', 'django_reported',
             'deque_waited', 'index_waited', 'lockfree_reads_ok', 'fault_taken_after_file_write', 'writing_lookups',
-            'sibling_block_cases')
+            'sibling_block_cases', 'rollback_journal_cases')
 ASSUMPTIONS = ('stats()/reset() are configuration calls with their own retry loop and are not driven',
                'the holder is a plain sqlite3 connection holding BEGIN IMMEDIATE on the same database file, or (sibling '
                'tier) a transact() block of another thread on the same Cache object')
@@ -305,17 +305,18 @@ def contents(dc, dirs):
     return out
 
 
-def cases(dc):
+def cases(dc, journal='wal'):
     """Yield (cls, label, make, dirs_of, call, fault, retry, timeout, expect)."""
     def mk_cache(stats=False, policy='least-recently-stored'):
         def make(d, timeout):
-            c = dc.Cache(d, timeout=timeout, disk_min_file_size=T, statistics=stats, eviction_policy=policy)
+            c = dc.Cache(d, timeout=timeout, disk_min_file_size=T, statistics=stats, eviction_policy=policy,
+                         sqlite_journal_mode=journal)
             populate(c)
             return c
         return make
 
     def mk_bulk(d, timeout):
-        c = dc.Cache(d, timeout=timeout, disk_min_file_size=T)
+        c = dc.Cache(d, timeout=timeout, disk_min_file_size=T, sqlite_journal_mode=journal)
         for i in range(230):
             c.set('k%03d' % i, BIG if i % 40 == 0 else i, tag='bulk', expire=1000)
         c.reset('size_limit', 1)          # cull() will want to evict everything
@@ -372,7 +373,7 @@ def cases(dc):
 
     # FanoutCache: reports, never raises
     def mk_fan(d, timeout):
-        f = dc.FanoutCache(d, shards=3, timeout=timeout, disk_min_file_size=T)
+        f = dc.FanoutCache(d, shards=3, timeout=timeout, disk_min_file_size=T, sqlite_journal_mode=journal)
         f.set('f', BIG, tag='t')
         f.set('s', 'small')
         f.set('n', 5)
@@ -627,10 +628,14 @@ def run_shard(tier, seed, shard, nshards, res):
     probe.install()
     probe.reset()
     with common.Scratch() as sc:
-        for i, case in enumerate(cases(dc)):
+        table = [(c, 'wal') for c in cases(dc)] + [(c, 'delete') for c in cases(dc, 'delete') if c[0] in ('Cache', 'FanoutCache')]
+        for i, (case, journal) in enumerate(table):
             if i % nshards != shard:
                 continue
             cls, label, make, dirs_of, call, fault, retry, timeout, expect = case
+            if journal != 'wal':
+                label += ' [rollback journal]'
+                res.count('rollback_journal_cases')
             if expect in ('timeout', 'bulk') and 'get' in label or label.startswith('read ('):
                 res.count('writing_lookups')
             run_case(dc, sc, res, label, make, dirs_of, call, fault, retry, timeout, expect, cls)
